@@ -1121,7 +1121,7 @@ func TestVerifC26(t *testing.T) {
 		}
 	})
 
-	n := r.N(100000, 6000000)
+	n := r.N(100000, 4000000)
 	r.Cases("parse", n, func(i int, id string, rng *vk.Rand) {
 		g := &c26Gen{rng: rng, r: r}
 		if rng.Intn(100) >= 55 {
